@@ -42,6 +42,11 @@ func cmdVrace(args []string) {
 		if kv == "" {
 			continue
 		}
+		if kv == "NOCACHE=1" {
+			// the exported switch "for analyzer testing": every pass builds its own checker set
+			analyzer.DisableCache = true
+			continue
+		}
 		i := strings.Index(kv, "=")
 		if err := analyzer.Analyzer.Flags.Set(kv[:i], kv[i+1:]); err != nil {
 			fmt.Fprintf(os.Stderr, "HARNESS: flag %s: %v\n", kv, err)
